@@ -914,8 +914,6 @@ def run(tier: str, seed: int, replay=None) -> int:
     codes: Dict[int, List[int]] = {i: v for (i, _), v in zip(exprs, vals)}
 
     kf_altcycle = 0
-    kf_frozen = 0
-    c04e_open = any(f.fid == "C04-e" and f.kind == "open" for f in findings)
     kf_altbase = 0
     c04c_open = any(f.fid == "C04-c" and f.kind == "open" for f in findings)
     stale = 0
@@ -923,9 +921,6 @@ def run(tier: str, seed: int, replay=None) -> int:
     for i, m in enumerate(metas):
         res, ft = m["res"], m["ft"]
         if "exc" in res:
-            if c04e_open and ft.get("frozen_with_refs") and res["exc"].startswith("FrozenInstanceError"):
-                kf_frozen += 1      # C04-e (python-level class rule: frozen-ness is not part of the heap model)
-                continue
             bad.append((m, f"exception {res['exc']}"))
             continue
         code, f04, wf = codes[i]
@@ -962,7 +957,7 @@ def run(tier: str, seed: int, replay=None) -> int:
         rep.note(f"{stale} cases outside F04 where impl = spec but the model predicts a failure (model inexact / finding repaired)")
     dist["generated_models"] = gdist
     rep.extra["distribution"] = dist
-    rep.extra["known_finding_instances"] = {"C04-a": kf_altcycle, "C04-c": kf_altbase, "C04-e": kf_frozen}
+    rep.extra["known_finding_instances"] = {"C04-a": kf_altcycle, "C04-c": kf_altbase}
     rep.samples = [{"case": m["descr"], "features": m["ft"]} for m in metas[:: max(1, len(metas) // 5)]][:5]
 
     for m, why in bad[:5]:
@@ -1016,7 +1011,7 @@ def run(tier: str, seed: int, replay=None) -> int:
             elif f.kind == "open":
                 rep.note("known finding C04-c: the scenario no longer yields a wrong object (finding appears repaired, or the allocator did not reuse the address)")
             continue
-        still = any(m["origin"] == f.witness and (m.get("code") == 2 or (f.cls == "K_frozen" and str(m["res"].get("exc", "")).startswith("FrozenInstanceError")))
+        still = any(m["origin"] == f.witness and (m.get("code") == 2 or "exc" in m["res"])
                     for m in metas) if replay is None else None
         if replay is not None:
             continue
